@@ -46,11 +46,47 @@ package verifier
 //@   flag trusted
 //@   ensures true
 
+// ------------------------------------------------------------------ Fiat-Shamir transcript (C11): plonky2 get_challenges
+// views of the challenger after each stage; d = circuit digest, pih = public-input hash, n = num_challenges
+//@ def tr_v1(d, pih, wires) = ch_obs_cap(ch_observe(ch_observe(ch_observe(ch_observe(ch_obs_bn(ch_init(), d), pih[0].Limb), pih[1].Limb), pih[2].Limb), pih[3].Limb), wires, len(wires))
+//@ def tr_v3(d, pih, wires, n) = ch_getn_st(ch_getn_st(tr_v1(d, pih, wires), n), n)
+//@ def tr_v4(d, pih, wires, n, zs) = ch_obs_cap(tr_v3(d, pih, wires, n), zs, len(zs))
+//@ def tr_v6(d, pih, wires, n, zs, q) = ch_obs_cap(ch_getn_st(tr_v4(d, pih, wires, n, zs), n), q, len(q))
+//@ def tr_v8(d, pih, wires, n, zs, q, b0, b1) = ch_obs_qes(ch_obs_qes(ch_get_st(ch_get_st(tr_v6(d, pih, wires, n, zs, q))), b0, len(b0)), b1, len(b1))
+//@ def to_openings_ok(o, c) = len(o.Batches) == 2 &&
+//@     len(o.Batches[0].Values) == len(c.Constants) + len(c.PlonkSigmas) + len(c.Wires) + len(c.PlonkZs) + len(c.PartialProducts) + len(c.QuotientPolys) &&
+//@     seg_eq(o.Batches[0].Values, 0, c.Constants) && seg_eq(o.Batches[0].Values, len(c.Constants), c.PlonkSigmas) &&
+//@     seg_eq(o.Batches[0].Values, len(c.Constants) + len(c.PlonkSigmas), c.Wires) &&
+//@     seg_eq(o.Batches[0].Values, len(c.Constants) + len(c.PlonkSigmas) + len(c.Wires), c.PlonkZs) &&
+//@     seg_eq(o.Batches[0].Values, len(c.Constants) + len(c.PlonkSigmas) + len(c.Wires) + len(c.PlonkZs), c.PartialProducts) &&
+//@     seg_eq(o.Batches[0].Values, len(c.Constants) + len(c.PlonkSigmas) + len(c.Wires) + len(c.PlonkZs) + len(c.PartialProducts), c.QuotientPolys) &&
+//@     len(o.Batches[1].Values) == len(c.PlonkZsNext) && seg_eq(o.Batches[1].Values, 0, c.PlonkZsNext)
+
 //@ func (c *VerifierChip) GetChallenges(proof variables.Proof, publicInputsHash poseidon.GoldilocksHashOut, verifierData variables.VerifierOnlyCircuitData) (res variables.ProofChallenges)
-//@   props C17
-//@   circuit
-//@   flag trusted
-//@   ensures true
+//@   props C11 C14 C17 C05
+//@   circuit sound-only
+//@   requires c.commonData.Config.NumChallenges <= pow2(16) && c.commonData.Config.FriConfig.NumQueryRounds <= pow2(32)
+//@   ghost ops fri.Openings = callresult("fri.Chip.ToOpenings", 0)
+//@   ensures[openings] to_openings_ok(ops, proof.Openings)
+//@   ensures[betas] len(res.PlonkBetas) == c.commonData.Config.NumChallenges && forall(k, 0, len(res.PlonkBetas), canon(res.PlonkBetas[k]) &&
+//@        res.PlonkBetas[k].Limb == ch_get_val(ch_getn_st(tr_v1(verifierData.CircuitDigest, publicInputsHash, proof.WiresCap), k)))
+//@   ensures[gammas] len(res.PlonkGammas) == c.commonData.Config.NumChallenges && forall(k, 0, len(res.PlonkGammas), canon(res.PlonkGammas[k]) &&
+//@        res.PlonkGammas[k].Limb == ch_get_val(ch_getn_st(ch_getn_st(tr_v1(verifierData.CircuitDigest, publicInputsHash, proof.WiresCap), c.commonData.Config.NumChallenges), k)))
+//@   ensures[alphas] len(res.PlonkAlphas) == c.commonData.Config.NumChallenges && forall(k, 0, len(res.PlonkAlphas), canon(res.PlonkAlphas[k]) &&
+//@        res.PlonkAlphas[k].Limb == ch_get_val(ch_getn_st(tr_v4(verifierData.CircuitDigest, publicInputsHash, proof.WiresCap, c.commonData.Config.NumChallenges, proof.PlonkZsPartialProductsCap), k)))
+//@   ensures[zeta] canonQE(res.PlonkZeta) && res.PlonkZeta == tuple(ch_get_val(tr_v6(verifierData.CircuitDigest, publicInputsHash, proof.WiresCap, c.commonData.Config.NumChallenges, proof.PlonkZsPartialProductsCap, proof.QuotientPolysCap)),
+//@        ch_get_val(ch_get_st(tr_v6(verifierData.CircuitDigest, publicInputsHash, proof.WiresCap, c.commonData.Config.NumChallenges, proof.PlonkZsPartialProductsCap, proof.QuotientPolysCap))))
+//@   ensures[fri-alpha] canonQE(res.FriChallenges.FriAlpha) && res.FriChallenges.FriAlpha == tuple(
+//@        ch_get_val(tr_v8(verifierData.CircuitDigest, publicInputsHash, proof.WiresCap, c.commonData.Config.NumChallenges, proof.PlonkZsPartialProductsCap, proof.QuotientPolysCap, ops.Batches[0].Values, ops.Batches[1].Values)),
+//@        ch_get_val(ch_get_st(tr_v8(verifierData.CircuitDigest, publicInputsHash, proof.WiresCap, c.commonData.Config.NumChallenges, proof.PlonkZsPartialProductsCap, proof.QuotientPolysCap, ops.Batches[0].Values, ops.Batches[1].Values))))
+//@   ensures[fri-betas] len(res.FriChallenges.FriBetas) == len(proof.OpeningProof.CommitPhaseMerkleCaps) && forall(k, 0, len(proof.OpeningProof.CommitPhaseMerkleCaps), canonQE(res.FriChallenges.FriBetas[k]) &&
+//@        res.FriChallenges.FriBetas[k] == tuple(
+//@          ch_get_val(fri_before_beta(tr_v8(verifierData.CircuitDigest, publicInputsHash, proof.WiresCap, c.commonData.Config.NumChallenges, proof.PlonkZsPartialProductsCap, proof.QuotientPolysCap, ops.Batches[0].Values, ops.Batches[1].Values), proof.OpeningProof.CommitPhaseMerkleCaps, k)),
+//@          ch_get_val(ch_get_st(fri_before_beta(tr_v8(verifierData.CircuitDigest, publicInputsHash, proof.WiresCap, c.commonData.Config.NumChallenges, proof.PlonkZsPartialProductsCap, proof.QuotientPolysCap, ops.Batches[0].Values, ops.Batches[1].Values), proof.OpeningProof.CommitPhaseMerkleCaps, k)))))
+//@   ensures[fri-pow] canon(res.FriChallenges.FriPowResponse) && res.FriChallenges.FriPowResponse.Limb ==
+//@        ch_get_val(fri_after_pow(tr_v8(verifierData.CircuitDigest, publicInputsHash, proof.WiresCap, c.commonData.Config.NumChallenges, proof.PlonkZsPartialProductsCap, proof.QuotientPolysCap, ops.Batches[0].Values, ops.Batches[1].Values), proof.OpeningProof.CommitPhaseMerkleCaps, proof.OpeningProof.FinalPoly.Coeffs, proof.OpeningProof.PowWitness.Limb))
+//@   ensures[fri-queries] len(res.FriChallenges.FriQueryIndices) == c.commonData.Config.FriConfig.NumQueryRounds && forall(k, 0, c.commonData.Config.FriConfig.NumQueryRounds, canon(res.FriChallenges.FriQueryIndices[k]) &&
+//@        res.FriChallenges.FriQueryIndices[k].Limb == ch_get_val(ch_getn_st(ch_get_st(fri_after_pow(tr_v8(verifierData.CircuitDigest, publicInputsHash, proof.WiresCap, c.commonData.Config.NumChallenges, proof.PlonkZsPartialProductsCap, proof.QuotientPolysCap, ops.Batches[0].Values, ops.Batches[1].Values), proof.OpeningProof.CommitPhaseMerkleCaps, proof.OpeningProof.FinalPoly.Coeffs, proof.OpeningProof.PowWitness.Limb)), k)))
 
 //@ func (c *VerifierChip) Verify(proof variables.Proof, publicInputs []gl.Variable, verifierData variables.VerifierOnlyCircuitData)
 //@   props C17
